@@ -104,7 +104,7 @@ def tag(i, d):
     return b"pkt-%02d-to-%d" % (i, d)
 
 
-def run_case(ctx, kind, mode, queue, pattern, later=None, code=errno.ECONNREFUSED):
+def run_case(ctx, kind, mode, queue, pattern, later=None, code=errno.ECONNREFUSED, empty=None):
     """pattern: tuple per pass of a state per destination (HEALTHY, FAILn, BLIPn);
     later: optional {pass index: [dest, ...]} packets queued just before that pass"""
     from ioflo.aio.proto import packeting
@@ -117,6 +117,9 @@ def run_case(ctx, kind, mode, queue, pattern, later=None, code=errno.ECONNREFUSE
 
     def enqueue(d):
         t = tag(n_tag[0], d)
+        if n_tag[0] == empty:
+            t = b""          # a packet without payload (a heartbeat): the socket accepts it and reports 0 bytes sent
+            ctx.hit("empty_payload_packets")
         n_tag[0] += 1
         st.transmit(packeting.Packet(stack=st, packed=t), DESTS[d])
         pending[d].append(t)
@@ -216,7 +219,7 @@ def run_case(ctx, kind, mode, queue, pattern, later=None, code=errno.ECONNREFUSE
                   "%s: accepted datagrams are not the queued packets once each" % kind,
                   wit({"accepted": [t.decode() for t in acc]}))
     finally:
-        ctx.case((kind, mode, queue, pattern, sorted(later.items()) if later else None, code), nontrivial=failed_any)
+        ctx.case((kind, mode, queue, pattern, sorted(later.items()) if later else None, code, empty), nontrivial=failed_any)
         if failed_any:
             ctx.hit("failure_with_others_pending")
         H.close()
@@ -254,6 +257,8 @@ def worker(ctx, job):
                 run_case(ctx, "UdpStack", "all", queue, cp, code=ERRNOS[done % len(ERRNOS)])
             if done % 5 == 0:
                 run_case(ctx, "GramStack", "once", queue, cp)
+            if done % 7 == 0:
+                run_case(ctx, "GramStack" if done % 2 else "UdpStack", "all" if done % 3 else "once", queue, cp, empty=done % len(queue))
     rng = ctx.subrng("c35", k)
     for r in range(job["R"]):
         n = rng.randint(2, 10)
@@ -267,7 +272,7 @@ def worker(ctx, job):
             later.setdefault(rng.randint(1, 4), []).append(rng.randint(0, 2))
         kind = rng.choice(("GramStack", "UdpStack"))
         run_case(ctx, kind, rng.choice(("all", "all", "once")), tuple(queue), pattern, later=later or None,
-                 code=rng.choice(ERRNOS))
+                 code=rng.choice(ERRNOS), empty=rng.randrange(len(queue)) if rng.random() < 0.2 else None)
         ctx.hit("random_cases")
         if r == 0 and k == 0:
             ctx.sample({"class": kind, "queue_destinations": queue, "failure_pattern_per_pass": [list(p) for p in pattern],
@@ -288,4 +293,5 @@ def run(ctx):
     ctx.floor("failure_with_others_pending", ctx.pick(10000, 300000))
     ctx.floor("failed_sends", ctx.pick(15000, 500000))
     ctx.floor("random_cases", ctx.pick(150, 8000))
+    ctx.floor("empty_payload_packets", ctx.pick(500, 20000))
     ctx.floor("distinct_nontrivial", ctx.pick(10000, 300000))
